@@ -186,6 +186,11 @@ def zero_default(node, e):
             (isinstance(node.test, ast.UnaryOp) and zero(node.body))
     if isinstance(node, ast.BoolOp) and isinstance(node.op, ast.Or) and len(node.values) == 2 and node.values[0] is e:
         return zero(node.values[1])
+    # the same written as a statement (canonical form of `t = x if x else 0`):  if x: t = x  else: t = 0
+    if isinstance(node, ast.If) and node.test is e and len(node.body) == 1 and len(node.orelse) == 1 and \
+            all(isinstance(s, ast.Assign) and len(s.targets) == 1 for s in (node.body[0], node.orelse[0])) and \
+            ast.dump(node.body[0].targets[0]) == ast.dump(node.orelse[0].targets[0]):
+        return zero(node.orelse[0].value) and ast.dump(node.body[0].value) == ast.dump(e)
     return False
 
 
